@@ -241,6 +241,26 @@ func (lv *LeafVariants) GetHighestPrecedence(onlyNewOrUpdated bool, includeDefau
 	return nil
 }
 
+// GetHighestPrecedenceRemaining returns the LeafEntry that rules once the pending
+// deletes are applied, that is the highest precedence LeafEntry that is not marked
+// for deletion. nil if no such entry exists.
+// This is what validation has to look at: the value of an intent that is being removed
+// is not part of the resulting configuration, the value it shadowed so far is.
+func (lv *LeafVariants) GetHighestPrecedenceRemaining() *LeafEntry {
+	lv.lesMutex.RLock()
+	defer lv.lesMutex.RUnlock()
+	var highest *LeafEntry
+	for _, e := range lv.les {
+		if e.GetDeleteFlag() {
+			continue
+		}
+		if highest == nil || highest.Priority() > e.Priority() {
+			highest = e
+		}
+	}
+	return highest
+}
+
 func (lv *LeafVariants) highestIsUnequalRunning(highest *LeafEntry) bool {
 	// if highes is already running or even default, return false
 	if highest.Update.Owner() == RunningIntentName {
